@@ -27,7 +27,8 @@ CLAIM = ("The sanitizer's gates are placed so that, on every path, a tag token l
          'evaluated on the control-stripped, lower-cased value, configured (not default) lists are the ones '
          'consulted, and every kept CSS declaration passed an allow-list test after url() stripping. Holds for '
          'custom lists as well because the lists are symbolic. The stripped class covers white space and all '
-         'control characters (general category Cc); every stripping substitution is global.')
+         'control characters (general category Cc); every stripping substitution is global.'
+         ' The URI gate deletes a rejected attribute once in every case; non-local url() references in SVG presentation attributes are stripped whatever their case or length; constant tables are not indexed with token-derived keys; CSS shorthand families come from a list written into the function (known finding).')
 NOT_DECIDED = ("whether the URL normalisation matches what browsers do; regular-language claims about the CSS gauntlet "
                "('never url()' holds only up to the stripper's pattern); the contents of the allow-lists themselves.")
 MODULES = ["filters/sanitizer.py", "filters/base.py", "constants.py"]
